@@ -417,7 +417,7 @@ TABLE['C18'] = dict(
     ])
 
 TABLE['C19'] = dict(
-    imports=[A + 'InferenceThm', A + 'CacheThm'],
+    imports=[A + 'InferenceThm', A + 'InferenceLabels', A + 'CacheThm'],
     summary='Proved with the optimiser as a parameter: _run stores the first minimum of the results, loss_inferred = min(loss_runs), the stored '
             'point attains it; add_run keeps the lower loss, concatenates losses, any merge order gives the global minimum; bootstraps append one '
             'row; create_run uses the given start values and rejects out-of-bounds ones (pre-fix variant refuted). Cache transparency is C17. '
@@ -431,6 +431,14 @@ TABLE['C19'] = dict(
         ('bootstrap_rows', 'PG.Inference.C19_bootstrap_rows', 'each add_bootstrap appends exactly one row'),
         ('create_run', 'PG.Inference.C19_create_run', 'explicit start values are used; out-of-bounds rejected'),
         ('create_run_pinned_defect', 'PG.Inference.create_run_pinned_defect', 'the pre-fix create_run kept the parent\'s start values'),
+        ('labels_within_bounds', 'PG.Inference.C19_labels_within_bounds', 'dict level: for x0 listed in ANY key order, every start point and any box-respecting optimiser, params_inferred carries the keys of x0, each value lies in ITS OWN bounds, loss_inferred is the loss at params_inferred and the minimum of loss_runs'),
+        ('labels_lookup', 'PG.Inference.C19_labels_lookup_within_bounds', 'every bounded parameter is reported, inside its own box'),
+        ('labels_order_irrelevant', 'PG.Inference.C19_labels_order_irrelevant', 'the key order in which x0 is written does not change the result (label-equivariant optimiser, order-insensitive loss)'),
+        ('labels_pinned_defect', 'PG.Inference.C19_labels_pinned_counterexample', 'kernel-checked: the pre-fix _run reports swapped names / values outside their bounds when a sampled start wins'),
+        ('labels_pinned_loss', 'PG.Inference.C19_labels_pinned_loss_mismatch', 'kernel-checked: pre-fix loss_inferred is not the loss at params_inferred'),
+        ('labels_bounds_values_defect', 'PG.Inference.C19_labels_boundsValues_counterexample', 'kernel-checked: _optimize with list(bounds.values()) optimises under another parameter\'s bounds'),
+        ('labels_nonvacuous', 'PG.Inference.ex_theorem_applies', 'the hypotheses of labels_within_bounds are met by a concrete instance'),
+        ('labels_driver', 'PG.InfLab.runLabelled_eq_labelResults', 'the driver command inferlab computes the labelling part of the proved function'),
         ('cache_transparent', 'PG.Cache.C17_refinement', 'shared state spaces do not change answers'),
     ])
 
